@@ -159,6 +159,9 @@ func solveAll(obls []*Obligation, timeout time.Duration) {
 				vals = append(vals, in.T)
 			}
 			to := timeout
+			if o.Budget > 0 && o.Budget < to {
+				to = o.Budget
+			}
 			if o.Cover {
 				to = timeout / 2
 				// satisfiability of quantified facts is beyond the solvers: the cover query keeps the quantifier-free facts only
@@ -335,6 +338,17 @@ func runCheck(prop, tier, cfgPath, evDir, knownPath, replayDir string, verbose b
 		}
 		if rel {
 			obls = append(obls, &Obligation{Name: "contract-binds:" + e, Kind: "binds", Status: "undecided", Clause: e})
+		}
+	}
+	// obligations that match a recorded known finding are expected to stay open: a short budget is enough to notice if
+	// one of them has become provable
+	for _, o := range obls {
+		for _, k := range known {
+			if k.Kind == "known" && k.Property == prop {
+				if ok, _ := regexp.MatchString(k.Obligation, o.Name); ok {
+					o.Budget = 10 * time.Second
+				}
+			}
 		}
 	}
 	solveAll(obls, timeout)
